@@ -175,6 +175,12 @@ struct Prog {
         bad = "duplicate_name";
         return get(t.below(static_cast<uint32_t>(k))).name();
     }
+    // units that are refused as written: plain nonsense, or spellings that only become SI after sanitising
+    // (blanks, "mu" for micro) - the append calls and the setters must agree on what they accept
+    std::string badUnit() {
+        static const char *pool[] = {"foo", "bar", "sec", " ms ", "mus", "muV", "m s", "Volt"};
+        return pool[t.below(8)];
+    }
     std::string type(std::string &bad) {
         if (prof != Profile::Valid && t.chance(4)) {
             bad = "empty_type";
@@ -186,10 +192,51 @@ struct Prog {
 
     // ---------------------------------------------------------------------------------
     // operand selection from the live file
+    template <typename E> E reuseTop(std::vector<E> &cache, E fresh) {
+        if (!cache.empty() && t.chance(40)) {
+            E c = cache[t.below(static_cast<uint32_t>(cache.size()))];
+            bool ok = false;
+            try { ok = c && c.isValidEntity(); } catch (const std::exception &) { ok = false; }
+            if (ok) return c;
+        }
+        if (fresh) {
+            if (cache.size() < 3) cache.push_back(fresh);
+            else cache[t.below(3)] = fresh;
+        }
+        return fresh;
+    }
+    std::vector<nix::Block> heldBlocks;
+    std::vector<nix::Section> heldSections;
+    std::vector<nix::Source> heldSources;
+    // two long-lived handles per block (a user may well hold two handles to one parent): most steps on a block
+    // go through one of them, so that what one handle did is seen - or not - by the other
+    std::map<std::string, std::vector<nix::Block>> blockHandles;
+    // a user who holds a handle looks at it: every kept block handle is asked for its counts
+    void lookThroughKeptHandles() {
+        for (auto &kv : blockHandles)
+            for (auto &h : kv.second) {
+                try {
+                    if (!h || !h.isValidEntity()) continue;
+                    (void)h.dataArrayCount(); (void)h.dataFrameCount(); (void)h.tagCount(); (void)h.multiTagCount(); (void)h.groupCount(); (void)h.sourceCount();
+                } catch (const std::exception &) {
+                }
+            }
+    }
     nix::Block blk() {
         size_t n = f.blockCount();
         if (!n) return nix::Block();
-        return f.getBlock(t.below(static_cast<uint32_t>(n)));
+        nix::Block fresh = f.getBlock(t.below(static_cast<uint32_t>(n)));
+        auto &v = blockHandles[fresh.id()];
+        if (v.size() < 2) {
+            v.push_back(fresh);
+            return fresh;
+        }
+        size_t k = t.pick({2, 2, 1});
+        if (k == 2) return fresh;
+        bool ok = false;
+        try { ok = v[k] && v[k].isValidEntity(); } catch (const std::exception &) { ok = false; }
+        if (!ok) v[k] = fresh;
+        return v[k];
     }
     nix::Block blkOther(const nix::Block &b) {
         size_t n = f.blockCount();
@@ -262,6 +309,8 @@ struct Prog {
             d++;
         }
         if (depth) *depth = d;
+        // a source handle kept from an earlier step (only where the caller does not need the depth)
+        if (!depth) return reuseTop(heldSources, s);
         return s;
     }
     nix::Section sec(size_t *depth = nullptr) {
@@ -274,6 +323,7 @@ struct Prog {
             d++;
         }
         if (depth) *depth = d;
+        if (!depth) return reuseTop(heldSections, s);
         return s;
     }
     nix::Property prop(const nix::Section &s) {
@@ -369,6 +419,10 @@ struct Prog {
         heldTags.clear();
         heldMTags.clear();
         heldGroups.clear();
+        heldBlocks.clear();
+        blockHandles.clear();
+        heldSections.clear();
+        heldSources.clear();
     }
     void reopen(StepInfo &si) {
         dropHeld();
@@ -589,7 +643,8 @@ struct Prog {
                 n = maybeDuplicate(n, si.bad, [&] { return f.blockCount(); }, [&](size_t i) { return f.getBlock(i); });
                 si.op = "File.createBlock";
                 si.is_create = true;
-                f.createBlock(n, ty);
+                nix::Block nb = f.createBlock(n, ty);
+                blockHandles[nb.id()].push_back(nb);
             } else {
                 std::string n = name(si.bad), ty = type(si.bad);
                 n = maybeDuplicate(n, si.bad, [&] { return f.sectionCount(); }, [&](size_t i) { return f.getSection(i); });
@@ -603,6 +658,9 @@ struct Prog {
             if (!b) { std::string n = name(si.bad), ty = type(si.bad); si.op = "File.createBlock"; si.is_create = true; f.createBlock(n, ty); break; }
             std::string n = name(si.bad), ty = type(si.bad);
             si.is_create = true;
+            // the names of the existing siblings are read through a fresh handle of the block: the handle `b`
+            // may be one that was obtained long ago
+            nix::Block fb = f.getBlock(b.id());
             switch (t.pick({6, 2, 3, 3, 2, 3})) {
             case 0: {
                 static const nix::DataType dts[] = {nix::DataType::Double, nix::DataType::Int32, nix::DataType::String, nix::DataType::Bool,
@@ -615,7 +673,7 @@ struct Prog {
                 }
                 nix::NDSize shape(rank, 1);
                 for (size_t i = 0; i < rank; i++) shape[i] = 1 + t.below(4);
-                n = maybeDuplicate(n, si.bad, [&] { return b.dataArrayCount(); }, [&](size_t i) { return b.getDataArray(i); });
+                n = maybeDuplicate(n, si.bad, [&] { return fb.dataArrayCount(); }, [&](size_t i) { return fb.getDataArray(i); });
                 si.op = "Block.createDataArray";
                 keepCreated(heldArrays, b, b.createDataArray(n, ty, dt, shape, static_cast<nix::Compression>(t.below(3))));
                 break;
@@ -634,14 +692,14 @@ struct Prog {
                     if (t.flip()) { cols[0].dtype = nix::DataType::Nothing; si.bad = "unsupported_dtype"; }
                     else { cols.push_back(cols[0]); si.bad = "duplicate_column"; }
                 }
-                n = maybeDuplicate(n, si.bad, [&] { return b.dataFrameCount(); }, [&](size_t i) { return b.getDataFrame(i); });
+                n = maybeDuplicate(n, si.bad, [&] { return fb.dataFrameCount(); }, [&](size_t i) { return fb.getDataFrame(i); });
                 si.op = "Block.createDataFrame";
                 b.createDataFrame(n, ty, cols);
                 break;
             }
             case 2: {
                 std::vector<double> pos = dvec(3, true);
-                n = maybeDuplicate(n, si.bad, [&] { return b.tagCount(); }, [&](size_t i) { return b.getTag(i); });
+                n = maybeDuplicate(n, si.bad, [&] { return fb.tagCount(); }, [&](size_t i) { return fb.getTag(i); });
                 si.op = "Block.createTag";
                 keepCreated(heldTags, b, b.createTag(n, ty, pos));
                 break;
@@ -651,12 +709,12 @@ struct Prog {
                 si.op = "Block.createMultiTag";
                 si.is_link = true;
                 if (!a && si.bad.empty()) si.bad = "target_uninitialized";
-                n = maybeDuplicate(n, si.bad, [&] { return b.multiTagCount(); }, [&](size_t i) { return b.getMultiTag(i); });
+                n = maybeDuplicate(n, si.bad, [&] { return fb.multiTagCount(); }, [&](size_t i) { return fb.getMultiTag(i); });
                 keepCreated(heldMTags, b, b.createMultiTag(n, ty, a));
                 break;
             }
-            case 4: n = maybeDuplicate(n, si.bad, [&] { return b.groupCount(); }, [&](size_t i) { return b.getGroup(i); }); si.op = "Block.createGroup"; keepCreated(heldGroups, b, b.createGroup(n, ty)); break;
-            default: n = maybeDuplicate(n, si.bad, [&] { return b.sourceCount(); }, [&](size_t i) { return b.getSource(i); }); si.op = "Block.createSource"; b.createSource(n, ty); break;
+            case 4: n = maybeDuplicate(n, si.bad, [&] { return fb.groupCount(); }, [&](size_t i) { return fb.getGroup(i); }); si.op = "Block.createGroup"; keepCreated(heldGroups, b, b.createGroup(n, ty)); break;
+            default: n = maybeDuplicate(n, si.bad, [&] { return fb.sourceCount(); }, [&](size_t i) { return fb.getSource(i); }); si.op = "Block.createSource"; b.createSource(n, ty); break;
             }
             break;
         }
@@ -879,7 +937,7 @@ struct Prog {
                     std::string u = t.flip() ? "ms" : "";
                     if (prof != Profile::Valid && t.chance(25)) {
                         if (t.flip()) { iv = t.flip() ? 0.0 : -1.0; si.bad = "non_positive_interval"; }
-                        else { u = "foo"; si.bad = "non_si_unit"; }
+                        else { u = badUnit(); si.bad = "non_si_unit"; }
                     }
                     si.op = "DataArray.appendSampledDimension";
                     a.appendSampledDimension(iv, t.flip() ? "time" : "", u, t.flip() ? -0.5 : 0.0);
@@ -891,7 +949,7 @@ struct Prog {
                     std::string u = t.flip() ? "s" : "";
                     if (prof != Profile::Valid && t.chance(25)) {
                         if (t.flip() && tk.size() >= 2 && tk.front() != tk.back()) { std::reverse(tk.begin(), tk.end()); si.bad = "unsorted_ticks"; }
-                        else { u = "foo"; si.bad = "non_si_unit"; }
+                        else { u = badUnit(); si.bad = "non_si_unit"; }
                     }
                     si.op = "DataArray.appendRangeDimension";
                     a.appendRangeDimension(tk, t.flip() ? "x" : "", u);
@@ -930,7 +988,7 @@ struct Prog {
                     case 0: { double iv = 0.5 * (1 + t.below(8)); if (prof != Profile::Valid && t.chance(30)) { iv = -iv; si.bad = "non_positive_interval"; }
                               si.op = "SampledDimension.samplingInterval"; sd.samplingInterval(iv); break; }
                     case 1: si.op = "SampledDimension.offset"; sd.offset(static_cast<double>(t.range(-4, 4)) * 0.5); break;
-                    case 2: { std::string u = "ms"; if (prof != Profile::Valid && t.chance(40)) { u = "bar"; si.bad = "non_si_unit"; } si.op = "SampledDimension.unit"; sd.unit(u); break; }
+                    case 2: { std::string u = "ms"; if (prof != Profile::Valid && t.chance(40)) { u = badUnit(); si.bad = "non_si_unit"; } si.op = "SampledDimension.unit"; sd.unit(u); break; }
                     default: si.op = "SampledDimension.label"; sd.label("lbl" + std::to_string(t.below(3))); break;
                     }
                     break;
@@ -942,7 +1000,7 @@ struct Prog {
                     case 0: { std::vector<double> tk = dvec(5, true); std::sort(tk.begin(), tk.end());
                               if (prof != Profile::Valid && t.chance(35) && tk.size() >= 2 && tk.front() != tk.back()) { std::reverse(tk.begin(), tk.end()); si.bad = "unsorted_ticks"; }
                               si.op = "RangeDimension.ticks"; rd.ticks(tk); break; }
-                    case 1: { std::string u = "s"; if (prof != Profile::Valid && t.chance(40)) { u = "bar"; si.bad = "non_si_unit"; } si.op = "RangeDimension.unit"; rd.unit(u); break; }
+                    case 1: { std::string u = "s"; if (prof != Profile::Valid && t.chance(40)) { u = badUnit(); si.bad = "non_si_unit"; } si.op = "RangeDimension.unit"; rd.unit(u); break; }
                     default: si.op = "RangeDimension.label"; rd.label("rl" + std::to_string(t.below(3))); break;
                     }
                     break;
